@@ -53,6 +53,9 @@ type Monitor struct {
 	HangSeconds int
 	// WorkerEnv returns extra environment variables for worker processes (dir = work dir).
 	WorkerEnv func(dir string) []string
+	// WorkerBin chooses the executable of a worker shard (default: the running binary); used
+	// to run part of the shards under another build of the same program (e.g. without -race).
+	WorkerBin func(self string, shard int) string
 	// Prepare runs in the parent after the self-test and before workers start
 	// (e.g. to compute golden results in fresh processes); an error makes the run inconclusive.
 	Prepare func(dir, tier string, seed int64) error
